@@ -22,6 +22,8 @@ TWIN_OF = {   # function under contract -> twin harness name (native) / kani har
     'ChoiceHelper::choice': ('ChoiceHelper::choice', 'twin_choice_helper'),
     'ChoiceHelper::end': ('ChoiceHelper::choice', 'twin_choice_helper'),
     'ChoiceHelper::new': ('ChoiceHelper::choice', 'twin_choice_helper'),
+    'ParseState::first_n_chars': ('ParseState::first_n_chars', 'twin_first_n_chars'),
+    'CacheEntries': ('CacheEntries', 'twin_cache_map'),
 }
 BOUND = 'inputs: every UTF-8 string of at most 4 bytes (Kani) / strings over a 20-symbol alphabet up to 4 bytes (native); literals <= 3 bytes; every char'
 
